@@ -493,8 +493,8 @@ def wl_totality(ctx, rng, i):
 
 
 WORKLOADS = [
-    Workload("rewrites", wl_rewrites, quick=350, thorough=12000),
-    Workload("totality", wl_totality, quick=500, thorough=20000),
+    Workload("rewrites", wl_rewrites, quick=350, thorough=40000),
+    Workload("totality", wl_totality, quick=500, thorough=60000),
 ]
 
 
